@@ -8,8 +8,9 @@
      (ii)  recorded data axes belong to an array construct, name existing
            domain axes, and the axis sizes equal the construct's shape;
      (iii) the field's data axes exist and their sizes equal the data shape;
-     (iv)  coordinate references name existing constructs, cell methods name
-           existing domain axes;
+     (iv)  coordinate references name existing coordinate constructs (as
+           coordinates) and domain ancillary constructs (as terms), cell
+           methods name existing domain axes;
      (v)   the domain view is a function of the same state (Model.domain_view);
      (vi)  follows: everything repr / str / dump look up exists. *)
 From CfdmV Require Import Common.Base C02.Model C02.Lemmas.
@@ -20,30 +21,34 @@ Proof. exact inv_init. Qed.
 Print Assumptions C02_inv_init.
 
 (* One call - completed or rejected, through the field, the core route or the
-   domain view, with any argument choice - preserves consistency.
-   Full statement:  forall s o, Inv s -> Inv (fst (step s o)).
-   Proved for every operation except Subspace, Convert and the constructs=True
-   forms of Transpose / InsertDimension (modelled and compared with the
-   implementation on every run, preservation not proved); an inserted
-   coordinate reference / cell method must name existing constructs / axes
-   (exact: C02_unguarded_refuted). *)
-Theorem C02_inv_step_partial :
+   domain view, with any argument choice - preserves consistency.  Every
+   operation of the model: set / replace / delete a construct, set_data,
+   del_data, set_data_axes, del_data_axes, copy, f[...], squeeze, transpose and
+   insert_dimension (constructs=True included, also when the loop over the
+   metadata constructs is left by an exception part-way, for every order in
+   which the loop may have run), convert.
+   The only hypothesis (op_ok) is about the caller's data: an inserted
+   coordinate reference names existing coordinate constructs as coordinates and
+   existing domain ancillary constructs as terms, an inserted cell method
+   names existing domain axes.  The hypothesis is exact:
+   C02_unguarded_refuted, C02_untyped_reference_refuted. *)
+Theorem C02_inv_step :
   forall s o, Inv s -> op_ok s o -> Inv (fst (step s o)).
 Proof. exact step_inv. Qed.
-Print Assumptions C02_inv_step_partial.
+Print Assumptions C02_inv_step.
 
-(* Every history of such calls from the empty field ends in a consistent
-   state, whatever its length ... *)
-Theorem C02_inv_reachable_partial :
+(* Every history of calls from the empty field ends in a consistent state,
+   whatever its length ... *)
+Theorem C02_inv_reachable :
   forall ops, ops_ok init ops -> Inv (run ops).
 Proof. exact run_inv. Qed.
-Print Assumptions C02_inv_reachable_partial.
+Print Assumptions C02_inv_reachable.
 
 (* ... and so does every state on the way (after each call, rejected ones included). *)
-Theorem C02_inv_every_prefix_partial :
+Theorem C02_inv_every_prefix :
   forall ops n, ops_ok init ops -> Inv (run (firstn n ops)).
 Proof. exact run_inv_prefix. Qed.
-Print Assumptions C02_inv_every_prefix_partial.
+Print Assumptions C02_inv_every_prefix.
 
 (* Deleting a construct - by any of the three routes, from any consistent
    state, whether the call completes or is rejected - keeps consistency:
@@ -57,19 +62,35 @@ Proof. exact del_construct_inv. Qed.
 Print Assumptions C02_delete_safe.
 
 (* Squeeze, transpose and insert_dimension (in place or not, any axes /
-   position, valid or not) never leave the data shape and the data axes out
-   of step - in particular no rejected in-place call leaves a half-updated field. *)
+   position, valid or not, with or without constructs=True) never leave the
+   data shape and the data axes out of step - no rejected in-place call leaves
+   a half-updated field - and with constructs=True every metadata construct
+   that was transposed / expanded has its recorded axes updated with it, also
+   when the loop stops at a construct it cannot deal with ([d]: the
+   constructs dealt with before that, any choice). *)
 Theorem C02_reshape_safe :
   forall s, Inv s ->
   (forall a i, Inv (fst (squeeze a i s))) /\
-  (forall a i, Inv (fst (transpose a false i s))) /\
-  (forall ax p i, Inv (fst (insert_dimension ax p false i s))).
+  (forall a c i d, Inv (fst (transpose a c i d s))) /\
+  (forall ax p c i d, Inv (fst (insert_dimension ax p c i d s))).
 Proof.
   exact (fun s I => conj (fun a i => squeeze_inv a i s I)
-                   (conj (fun a i => transpose_inv a i s I)
-                         (fun ax p i => insert_dimension_inv ax p i s I))).
+                   (conj (fun a c i d => transpose_inv_full a c i d s I)
+                         (fun ax p c i d => insert_dimension_inv_full ax p c i d s I))).
 Qed.
 Print Assumptions C02_reshape_safe.
+
+(* The operations that derive a new field: f[indices] (any selected sizes,
+   also with an axis spanned twice) and convert(key, full_domain) give a
+   consistent field or are rejected leaving the original as it was; in
+   particular the coordinate references that convert carries over name only
+   constructs that it carried over as well. *)
+Theorem C02_derive_safe :
+  forall s, Inv s ->
+  (forall sel, Inv (fst (subspace sel s))) /\
+  (forall k full, Inv (fst (convert k full s))).
+Proof. exact (fun s I => conj (fun sel => subspace_inv sel s I) (fun k full => convert_inv k full s I)). Qed.
+Print Assumptions C02_derive_safe.
 
 (* A rejected insertion / replacement, set_data, del_data, set_data_axes,
    del_data_axes or copy leaves the state exactly as it was. *)
@@ -108,6 +129,19 @@ Theorem C02_describe_total :
 Proof. exact (fun s I => conj (inv_describe s I) (domain_view_spec s)). Qed.
 Print Assumptions C02_describe_total.
 
+(* Clauses (v) and (vi) in every reachable state: after any history the
+   look-ups of repr / str / dump succeed, the domain view shows exactly the
+   field's constructs of the types it does not ignore, and each of them is
+   registered in the field under the same key and type. *)
+Theorem C02_view_and_describe_reachable :
+  forall ops, ops_ok init ops ->
+  describe_ok (run ops) = true /\
+  (forall t k p, In (t, k, p) (domain_view (run ops)) <-> In (t, k, p) (cons (run ops)) /\ ignored t = false) /\
+  (forall t k p, In (t, k, p) (domain_view (run ops)) ->
+     assoc k (ctys (run ops)) = Some t /\ cget t k (cons (run ops)) = Some p).
+Proof. exact reachable_view_describe. Qed.
+Print Assumptions C02_view_and_describe_reachable.
+
 (* The guard on inserted references is exact: the container does not validate
    the contents of a coordinate reference (by design), so a completed call can
    insert a dangling name. *)
@@ -116,13 +150,32 @@ Theorem C02_unguarded_refuted :
 Proof. exact unguarded_refuted. Qed.
 Print Assumptions C02_unguarded_refuted.
 
-(* Non-vacuity: a 12-step history meeting the hypotheses, in which the domain
-   view refuses to delete an axis the field data spans, and deleting a domain
-   ancillary clears the term of the coordinate reference that named it. *)
+(* ... and so is its typing: four completed calls, the third inserts a
+   coordinate reference whose coordinates() names an existing field ancillary;
+   convert(full_domain=True) then returns a field whose reference names a
+   construct the field does not hold (replayed on cfdm: same result). *)
+Theorem C02_untyped_reference_refuted :
+  map (fun n => snd (step (run (firstn n untyped_history)) (nth n untyped_history Copy))) [0; 1; 2; 3]%nat
+    = [Done; Done; Done; Done] /\
+  assoc "fieldancillary0"%string (ctys (run (firstn 3 untyped_history))) = Some FieldAnc /\
+  cget CoordRef "coordinatereference0" (cons (run untyped_history)) = Some (PRef ["fieldancillary0"%string] []) /\
+  assoc "fieldancillary0"%string (ctys (run untyped_history)) = None.
+Proof. exact untyped_reference_refuted. Qed.
+Print Assumptions C02_untyped_reference_refuted.
+
+(* Non-vacuity: a 17-step history meeting the hypotheses, in which the domain
+   view refuses to delete an axis the field data spans, deleting a domain
+   ancillary clears the term of the coordinate reference that named it, and
+   insert_dimension / transpose with constructs=True, a subspace and a convert
+   complete. *)
 Theorem C02_example :
   ops_ok init example_history /\
   snd (step (run (firstn 8 example_history)) (DelConstruct VDomain "domainaxis0")) = Rejected ValueErr /\
-  cget CoordRef "coordinatereference0" (cons (run example_history)) = Some (PRef [] [("a"%string, None)]) /\
-  axis_size (cons (run example_history)) "domainaxis0" = Some 5%Z.
+  cget CoordRef "coordinatereference0" (cons (run (firstn 12 example_history))) = Some (PRef [] [("a"%string, None)]) /\
+  axis_size (cons (run (firstn 12 example_history))) "domainaxis0" = Some 5%Z /\
+  map (fun n => snd (step (run (firstn n example_history)) (nth n example_history Copy))) [12; 13; 14; 15; 16]%nat
+    = [Done; Done; Done; Done; Done] /\
+  fshape (run example_history) = Some [2; 1]%Z /\
+  cget AuxCoord "auxiliarycoordinate0" (cons (run example_history)) = Some (PArr (Some [2; 1]%Z) true None).
 Proof. exact example_ok. Qed.
 Print Assumptions C02_example.
